@@ -503,7 +503,7 @@ func noteStart(n, conc, start int) {
 	startMu.Unlock()
 }
 
-func TestPropForward(t *testing.T) { hx.Check(t, 5000, genCase, runCase) }
+func TestPropForward(t *testing.T) { hx.Check(t, 10000, genCase, runCase) }
 
 // every start position is used over time (random start)
 func TestStartPositions(t *testing.T) {
